@@ -21,7 +21,7 @@ from ..cfg import must_facts, holds, canon_fact
 from ..rules import settle_sites, check_settles
 from ..mutate import mutate, remove_stmts, replace_expr, replace_stmt, parse_stmt, parse_expr
 from ..model import AnalysisError
-from ..x_sync import own_walk, guard_models, aug_delta, node_counts, method_call_on, exit_states, lambda_or_func_body_calls, own_find, own_settle_sites
+from ..x_sync import in_cycle, check_none_tests, own_walk, guard_models, aug_delta, node_counts, method_call_on, exit_states, lambda_or_func_body_calls, own_find, own_settle_sites
 from .c33 import check_fifo, check_gc, check_timeout_cb, _is_grant, _grant_target, _grant_value, _timeout_param, _drop_done_test, _rename_attr
 
 TECHNIQUE = "typestate over the CFG (wake-up accounting), settle-discipline and who-may-touch lint"
@@ -194,6 +194,8 @@ def check_notify(ck):
     for n, c in pops:
         ms = guard_models(facts[n.id], [nvar], range(0, 4))
         ck.ob("C34.notify-ts", fi, c, all(v != 0 for (v,) in ms) and holds(facts[n.id], WAIT, True), "a waiter is popped only while n is non-zero and the queue is non-empty (guard admits n in %s)" % sorted(v for (v,) in ms))
+    for n, c in pops:
+        ck.ob("C34.notify-ts", fi, c, in_cycle(cfg, n), "waiters are popped in a loop that continues until n is used up or the queue is empty (notify(n) wakes min(n, live waiters), not at most one)")
     for n, c in collects:
         ck.ob("C34.notify-ts", fi, c, holds(facts[n.id], donefact, False), "only a waiter that is not done() is collected for wake-up")
     # (that n is consumed only by such a waiter follows from the per-iteration typestate: counted == collected)
@@ -219,6 +221,8 @@ def check_notify(ck):
     susp = [n for n in cfg.stmt_nodes(lambda n: n.suspends)]
     ck.ob("C34.notify-ts", fi, fi.node, not susp, "notify has no suspension point between counting and waking", construct="suspension in notify")
 
+    dflt = fi.node.args.defaults
+    ck.ob("C34.notify-wake", fi, fi.node, len(dflt) == 1 and q.is_const(dflt[0], 1), "notify() without argument wakes one waiter (default n = 1)", construct="notify default n")
     na = ck.func(L, "Condition.notify_all")
     cs = [c for c in q.calls(na.node) if method_call_on(c, "self", "notify")]
     ok = len(cs) == 1 and len(cs[0].args) == 1 and q.is_call(cs[0].args[0], "len") and q.dotted(cs[0].args[0].args[0]) == WAIT
@@ -347,6 +351,9 @@ def check_event_wait(ck, fi):
                 if tn is not None and tn != pol:
                     return None
                 tn = pol
+            elif t == tparam:
+                # a truthiness test of the timeout (reported by C34.none-test): the falsy branch is the code's "no timeout" path
+                tn = not pol
         return (s, a, r, w, c, ret, ev, tn)
 
     if q.stores_to(fi.node, EV) or q.stores_to(fi.node, tparam):
@@ -448,8 +455,14 @@ def run(ck):
     ck.rule("C34.event-set", "Event.set stores True and completes every live registered waiter once, or does nothing only when already set")
     ck.rule("C34.event-clear", "Event.clear only stores False; _value has no other writer")
     ck.rule("C34.event-wait", "Event.wait: immediate completion only when set; otherwise register + self-removal; with a timeout, wrap in with_timeout(timeout, waiter), cancel the inner waiter when the wrapper finishes, return the wrapper")
+    ck.rule("C34.none-test", "the timeout of Condition.wait / Event.wait is compared with None by identity (timeout=0 is a legal, immediate timeout)")
     ck.rule("C34.with-timeout", "gen.with_timeout chains input->result once, arms one timer with the timeout; the timer callback fails only a pending result, with TimeoutError")
 
+    n = 0
+    for qn in ("Condition.wait", "Event.wait"):
+        f_ = ck.func(L, qn)
+        n += check_none_tests(ck, "C34.none-test", f_, only=[_timeout_param(f_)])
+    ck.floor("C34.none-test", n, 2, "tests of the timeout in Condition.wait / Event.wait")
     check_cond_wait(ck)
     check_notify(ck)
     check_fifo(ck, R="C34.fifo", family=COND_FAMILY)
@@ -480,6 +493,10 @@ def _move_dec_out_of_guard(root):
 
 
 MUTANTS = [
+    ("notify(n) wakes at most one waiter (while -> if)", _in("Condition.notify", lambda root: _while_to_if(root)), "C34.notify-ts"),
+    ("notify() defaults to waking nobody (n=0)", _in("Condition.notify", lambda root: _set_default(root, 0)), "C34.notify-wake"),
+    ("Condition.wait(timeout=0) waits forever (`if timeout:`, seeded C34-adv1)", _in("Condition.wait", replace_expr(lambda n: isinstance(n, ast.Compare) and isinstance(n.ops[0], ast.IsNot) and ast.unparse(n.left) == "timeout", lambda n: n.left)), ("C34.none-test", "C34.cond-timeout")),
+    ("Event.wait(timeout=0) waits forever (`if not timeout:`)", _in("Event.wait", replace_expr(lambda n: isinstance(n, ast.Compare) and isinstance(n.ops[0], ast.Is) and ast.unparse(n.left) == "timeout", lambda n: ast.UnaryOp(op=ast.Not(), operand=n.left))), ("C34.none-test", "C34.event-wait")),
     ("notify counts timed-out waiters against n", _in("Condition.notify", _move_dec_out_of_guard), "C34.notify-ts"),
     ("notify wakes a popped waiter without the done() test", _in("Condition.notify", _drop_done_test), ("C34.notify-ts", "C34.settle")),
     ("notify wakes the newest waiter (pop)", _in("Condition.notify", _rename_attr("popleft", "pop")), "C34.fifo"),
@@ -501,3 +518,22 @@ MUTANTS = [
     ("with_timeout fails an already finished result (guard removed)", _in("with_timeout.<locals>.timeout_callback", _drop_done_test, rel=G), ("C34.settle", "C34.with-timeout")),
     ("with_timeout chains the wrong way round", _in("with_timeout", replace_expr(lambda n: q.is_call(n, "chain_future"), lambda n: ast.Call(func=n.func, args=[n.args[1], n.args[0]], keywords=[])), rel=G), "C34.with-timeout"),
 ]
+
+
+def _set_default(root, v):
+    if root.args.defaults:
+        root.args.defaults[0] = ast.Constant(value=v)
+        return True
+    return False
+
+
+def _while_to_if(root):
+    for node in ast.walk(root):
+        for fld in ("body", "orelse"):
+            body = getattr(node, fld, None)
+            if isinstance(body, list):
+                for i, st in enumerate(body):
+                    if isinstance(st, ast.While) and not st.orelse and not any(isinstance(x, (ast.Break, ast.Continue)) for x in ast.walk(st)):
+                        body[i] = ast.If(test=st.test, body=st.body, orelse=[])
+                        return True
+    return False
